@@ -289,7 +289,7 @@ class Language(metaclass=abc.ABCMeta):
 
             return (module_name, (0, 0, 0), None)
 
-    @functools.lru_cache()
+    # Deliberately not memoised: pydsdl types compare equal by name and version only (a redefinition needs its own builder).
     def get_dependency_builder(self, for_type: pydsdl.Any) -> DependencyBuilder:
         """
         Get a dependency builder for the given type.
